@@ -1,4 +1,5 @@
 import Rare.Proofs.F64Val
+import Rare.Base.F64Str
 /-!
 Arithmetic of the software binary64 model on finite operands:
 
@@ -274,5 +275,73 @@ theorem roundHalfAway_spec {x : F64} (hx : x.isFinite = true) :
     have l2 : (v + 1 / 2).floor < ((P52 : Nat) : Int) + 1 := Rat.floor_lt_iff.mpr (by
       rw [Rat.intCast_add]; simp; grind)
     omega
+
+/-! ### further facts used by the C11 theorems -/
+
+/-- Finite floats with the same non-zero value are the same float. -/
+theorem eq_of_toRat_eq {x y : F64} (hx : x.isFinite = true) (hy : y.isFinite = true)
+    (h : x.toRat = y.toRat) (hne : x.toRat ≠ 0) : x = y := by
+  have a := ofRatS_toRat x hx
+  have b := ofRatS_toRat y hy
+  rw [← h] at b
+  unfold ofRatS at a b
+  rw [if_neg hne] at a b
+  rw [← a, ← b]
+
+theorem isFinite_ofInt (n : Int) (h : n.natAbs ≤ P53) :
+    (ofInt n).isFinite = true ∧ (ofInt n).toRat = (n : Rat) :=
+  ofRatS_rep false (rep_int h)
+
+/-- `int64(x)` of an integer-valued finite float inside the int64 range is that integer. -/
+theorem toInt64_of_int {x : F64} {n : Int} (h : x.toRat? = some (n : Rat))
+    (h1 : minInt64 ≤ n) (h2 : n ≤ maxInt64) : toInt64 x = n := by
+  obtain ⟨hf, hv⟩ := toRat?_eq_some.mp h
+  unfold toInt64
+  rw [hf, hv, truncRat_intCast]
+  have : ¬ (n < minInt64 ∨ maxInt64 < n) := by omega
+  simp [this]
+
+theorem toInt64_not_finite {x : F64} (h : x.isFinite = false) : toInt64 x = minInt64 := by
+  unfold toInt64; simp [h]
+
+theorem integral_not_finite (f : Rat → Int) {x : F64} (h : x.isFinite = false) :
+    (integral f x).isFinite = false := by
+  unfold integral
+  by_cases hn : x.isNaN = true
+  · rw [if_pos hn]; decide
+  · have hi : x.isInf = true := by
+      simp [isFinite, isNaN, isInf] at *; omega
+    rw [if_neg hn, if_pos hi]; exact h
+
+/-! ### `FormatFloat` of the special values -/
+
+theorem format_nan (p : Int) : format nan p = ascii "NaN" := by
+  unfold format; rw [if_pos (by decide)]
+
+theorem format_inf (s : Bool) (p : Int) : format (inf s) p = if s then ascii "-Inf" else ascii "+Inf" := by
+  cases s
+  · unfold format; rw [if_neg (by decide), if_pos (by decide)]; rfl
+  · unfold format; rw [if_neg (by decide), if_pos (by decide)]; rfl
+
+/-- Division of a finite float by a zero, as IEEE-754 has it. -/
+theorem div_by_zero {x z : F64} (hx : x.isFinite = true) (hz : z.mag = 0) :
+    div x z = if x.mag = 0 then nan else inf (x.sign != z.sign) := by
+  unfold div
+  have hzf : z.isFinite = true := by simp [isFinite, hz]
+  have hzz : z.isZero = true := by simp [isZero, hz]
+  have hxz : x.isZero = decide (x.mag = 0) := rfl
+  simp [not_nan_of_finite hx, not_nan_of_finite hzf, not_inf_of_finite hx, not_inf_of_finite hzf, hzz, hxz]
+
+/-! ### digits printed by the fixed-precision format -/
+
+/-- The integer `N` whose digits `FormatFloat(x, 'f', p)` prints (with the point `p` places from the
+    right) is within one half of `|x|·10^p`: the rendering is correctly rounded. -/
+theorem fixedBody_eq (m p : Nat) :
+    fixedBody m p = placePoint (natDigits (roundNE (magVal m * pow10 p)).toNat) p := rfl
+
+theorem fixed_digits_err (m p : Nat) :
+    magVal m * pow10 p - 1/2 ≤ ((roundNE (magVal m * pow10 p) : Int) : Rat) ∧
+    ((roundNE (magVal m * pow10 p) : Int) : Rat) ≤ magVal m * pow10 p + 1/2 :=
+  roundNE_err _
 
 end Rare.F64
